@@ -199,7 +199,7 @@ class UlpiSpec(Spec):
 
     # env = (p, u, c, bud, rxm, txm, regm)
     #   u    None | (packet index, byte index)
-    #   rxm  (queue of (byte, age), refcmd history (t, t-1, t-2), refactive history, regint)
+    #   rxm  (queue of (byte, age), refcmd history (t, t-1, t-2), refactive history, register-write-outstanding tag countdown)
     #   txm  1 if STP is due in the coming cycle
     #   regm (S_fc, S_otg, quiet)
     def build(self):
@@ -207,7 +207,7 @@ class UlpiSpec(Spec):
 
     def env0(self):
         r = self.req[0]
-        return (PHY0, None, 0, self.bud0, ((), (None,) * (RX_LAT + 1), (0,) * (RX_LAT + 1)), 0,
+        return (PHY0, None, 0, self.bud0, ((), (None,) * (RX_LAT + 1), (0,) * (RX_LAT + 1), 0), 0,
                 (frozenset([PHY_RESET_REGS[0], r[0]]), frozenset([PHY_RESET_REGS[1], r[1]]), 0))
 
     def prologue(self, cur):
@@ -351,7 +351,7 @@ class UlpiSpec(Spec):
         if p[0] == "T" and pc == "idle" and txv: self.cover["tx-stall"] += 1
 
         # ---- receive side (C22)
-        queue, hcmd, hact = rxm
+        queue, hcmd, hact, rw = rxm
         ref = hcmd[0]
         for e in events:
             if e[0] == "rxcmd": ref = e[1]
@@ -359,7 +359,12 @@ class UlpiSpec(Spec):
         hact = (p2[3] if p2[0] == "R" else 0,) + hact[:-1]
         # tag receive findings that happen while a register write is outstanding (requested settings != PHY registers,
         # or the DIR phase aborted a register command): a different mechanism in the design than plain receive
-        sfx = ":register-write-outstanding" if (p[0] == "R" and p[2]) or (p2[0] == "R" and p2[2]) or (p2[4], p2[5]) != self.req[c] else ""
+        # (sticky for the whole DIR-high phase plus the latency window after it)
+        if p2[0] == "R":
+            if rw or p2[2] or (p2[4], p2[5]) != self.req[c]: rw = RX_LAT + 1
+        elif rw:
+            rw -= 1
+        sfx = ":register-write-outstanding" if rw else ""
         if rx_new is not None:
             queue = queue + ((rx_new, 0),)
         if "rx" in checks:
@@ -384,7 +389,7 @@ class UlpiSpec(Spec):
             queue = queue[1:]
         queue = tuple((b, a + 1) for b, a in queue)
         if "rx" not in checks:
-            queue = (); hcmd = (None,) * (RX_LAT + 1); hact = (0,) * (RX_LAT + 1)
+            queue = (); hcmd = (None,) * (RX_LAT + 1); hact = (0,) * (RX_LAT + 1); rw = 0
         if o.rx_active: self.cover["rx-active"] += 1
 
         # ---- register bookkeeping (C24)
@@ -400,7 +405,7 @@ class UlpiSpec(Spec):
                 quiet = 0
             regm = (sf, so, quiet)
         self.outcomes.add((p2[0], o.data_o, o.stp, o.tx_ready, o.rx_valid, o.rx_active))
-        return (p2, u, c, (r_left, c_left, k_left), (queue, hcmd, hact), txm2, regm)
+        return (p2, u, c, (r_left, c_left, k_left), (queue, hcmd, hact, rw), txm2, regm)
 
     # ------------------------------------------------------------------ bounded convergence (lookahead, C24)
     def check_convergence(self, cur, env):
